@@ -219,18 +219,27 @@ _counter = itertools.count()
 class Harness:
     """One checkable condition: an icontract-decorated function over int/bool arguments."""
 
-    def __init__(self, body, args, extra_pre=(), describe=None, bounds=None, ns=None):
+    def __init__(self, body, args, extra_pre=(), describe=None, bounds=None, ns=None, fixed=None):
         """
         body(a: dict) -> ''  (held) | non-empty str (what failed)
         args: list of (name, domain) ; domain is Cls / Enum / IntRange or the string 'bool'
         extra_pre: list of (argnames tuple, python expression source) evaluated with ns in scope
         describe(a) -> dict: concrete description of the input for samples / replay scripts
         """
-        self.body = body
-        self.args = list(args)
+        # `fixed`: selectors fanned out by the driver (DESIGN 2.2: at most ~3 selectors stay symbolic per condition)
+        self.fixed = dict(fixed or {})
+        unknown = set(self.fixed) - {n for n, _ in args}
+        if unknown:
+            raise ValueError(f'fixed names {unknown} are not arguments')
+        raw_body, raw_describe = body, describe or (lambda a: dict(a))
+        fx = self.fixed
+        self.body = (lambda a: raw_body(dict(a, **fx))) if fx else body
+        self.describe = (lambda a: raw_describe(dict(a, **fx))) if fx else raw_describe
+        self.args = [x for x in args if x[0] not in fx]
         self.extra_pre = list(extra_pre)
-        self.describe = describe or (lambda a: dict(a))
-        self.bounds = bounds or {}
+        self.bounds = dict(bounds or {})
+        if fx:
+            self.bounds['fixed_by_driver'] = dict(fx)
         self.ns = dict(ns or {})
         self.fn = self._compile()
 
